@@ -52,7 +52,11 @@ def materialize_defaults(value: Any) -> None:
   """
 
   def traverse(node, state: daglish.State):
-    if isinstance(node, config.Buildable):
+    # (A TaggedValue's `tags` parameter is filled in by TaggedValueCls.__build__;
+    # giving it a value would make the build fail.)
+    if isinstance(node, config.Buildable) and not isinstance(
+        node, config.TaggedValueCls
+    ):
       parameters = node.__signature_info__.parameters.values()
       for index, arg in enumerate(parameters):
         if arg.default is arg.empty:
